@@ -16,7 +16,8 @@ META = {
             "every_map_range_sorted (the complete table of `for ... := range <map>` statements of the anchored files; re-derived from the Go source with go/ast on every run and compared, so a new unsorted exposure or a removed sort is flagged with file:line). "
             "Tie and search on the real implementation: (a) operation histories on the real starlark.Dict, struct / module listings and hash() are evaluated against the Coq machine under two different environments and against the specification machine; "
             "(b) generated dict/set/struct/json/dir()/load/time-heavy programs (keys >= 12 bytes, one third ending in an error raised inside nested calls) are executed in k fresh processes (new hash seed each), three times in one process and on concurrent goroutines; "
-            "the canonical transcript (prints, every global serialised with its iteration orders, String(), raw AttrNames(), error message + backtrace, ExecutionSteps()) must be identical.",
+            "the canonical transcript (prints, every global serialised with its iteration orders, String(), raw AttrNames(), error message + backtrace, ExecutionSteps()) must be identical; "
+            "(c) the SAME compiled Program is initialised on many goroutines at once (error programs, and a stress with a freshly reloaded 24 000-line chain program per trial so that lazily decoded tables are built under contention); in the thorough tier the concurrent runs are repeated under Go's race detector.",
     "note": "Trusted: Coq kernel + vm_compute; the harness (program generator, canonical serialiser, process/goroutine drivers), the Go AST walker and its syntactic recognition of map-typed expressions. "
             "Depends on C12 for the refinement of the real hashtable.go (8-entry buckets, overflow chains) to an insertion-ordered map: the table proved here is a simple bucketed model. "
             "UTF-8 decoding for hash(str) is Go's (the harness supplies the runes). Not reached by proof: goroutine scheduling, the Go runtime, lib/proto; scheduler effects are only exercised (goroutine runs) and otherwise rest on C05 (threads share no mutable state).",
@@ -185,6 +186,26 @@ Definition firsts := Eval vm_compute in map (fun c : list op * list event => fir
             ctx.broken("harness:child", d["err"][-1500:])
     ctx.log("programs %d x %d processes, divergences %d" % (summ["programs"], k, summ["divergences"]))
 
+    # ---- 4. (thorough) the same concurrent runs under Go's race detector: shared compiled programs,
+    #         predeclared modules and universe values must be read-only while executing
+    race_note = "not run in the quick tier"
+    if not quick:
+        import subprocess
+        from .lib import env
+        hr = ctx.go_build("c03", race=True)
+        p = subprocess.run([hr, "child", "-seed", str(ctx.seed), "-lo", "0", "-hi", "60", "-multi", "-g", "6"],
+                           env=env(), capture_output=True, text=True, timeout=1500, errors="replace")
+        races = re.findall(r"WARNING: DATA RACE\n(.*?)\n\n", p.stderr, re.S)
+        race_note = "race detector: %d report(s), exit %d" % (len(races), p.returncode)
+        for rep in races[:5]:
+            fn = re.search(r"\n\s+([A-Za-z0-9_./()*]+)\(\)\n", "\n" + rep)
+            ctx.finding("data-race:%s" % (fn.group(1).split("/")[-1] if fn else "?"),
+                        "Go's race detector reports unsynchronised access while the same compiled program / shared values are executed on several goroutines: %s" % rep[:700].replace("\n", " | "),
+                        {"mode": "race", "report": rep[:3000], "cmd": "c03(-race) child -seed %d -lo 0 -hi 60 -multi -g 6" % ctx.seed})
+        if p.returncode != 0 and not races:
+            ctx.broken("harness:race-run", (p.stderr or "")[-1500:])
+        ctx.log(race_note)
+
     cov = {
         "evaluations": summ["executions"] + nops,
         "distinct_nontrivial": summ["programs"] + len(set(cases)),
@@ -193,7 +214,7 @@ Definition firsts := Eval vm_compute in map (fun c : list op * list event => fir
         "samples": [summ["sample_program"][:600], summ["sample_transcript"][:600], hist[0]["ops"][:6] if hist else None],
         "distribution": summ["distribution"], "programs_ending_in_error": summ["with_error"],
         "processes": k, "goroutines": g, "histories": len(hist), "history_operations": nops,
-        "model_mismatches": len(bad_model), "spec_mismatches": len(bad_spec), "map_ranges": len(rows),
+        "model_mismatches": len(bad_model), "spec_mismatches": len(bad_spec), "map_ranges": len(rows), "race_detector": race_note,
     }
     return ctx.finish(LEVEL, cov, assumptions=[
         "the real hashtable.go refines an insertion-ordered map (C12); the Coq table is a simple bucketed model parametrised by the hash function",
